@@ -14,14 +14,14 @@ cd $WT
 git checkout -q -- . 2>/dev/null
 git apply $S/demo.diff || { echo "demo does not apply"; exit 2; }
 git apply $S/patch.diff || { echo "patch does not apply"; exit 2; }
-cargo nextest run ${NEXTEST_ARGS:---workspace} --offline -E "binary($BIN)" > /tmp/seed_with.log 2>&1; W=$?
+cargo nextest run ${NEXTEST_ARGS:---workspace} --offline -E "${FILTER:-binary($BIN)}" > /tmp/seed_with.log 2>&1; W=$?
 git apply -R $S/demo.diff
 cargo nextest run --workspace --no-fail-fast --offline --test-threads 8 > /tmp/seed_suite.log 2>&1
 SUITE=$(grep -E "^\s+Summary" /tmp/seed_suite.log | tail -1); FAILED=$(grep -E "^\s+(FAIL|TIMEOUT|SIGABRT)" /tmp/seed_suite.log | awk '{print $NF}' | sort -u | tr '\n' ' ')
 echo "suite with patch (no demo): $SUITE failed: $FAILED" | tee $OUT/suite_with_patch.txt
 git apply $S/demo.diff
 git apply -R $S/patch.diff
-cargo nextest run ${NEXTEST_ARGS:---workspace} --offline -E "binary($BIN)" > /tmp/seed_without.log 2>&1; WO=$?
+cargo nextest run ${NEXTEST_ARGS:---workspace} --offline -E "${FILTER:-binary($BIN)}" > /tmp/seed_without.log 2>&1; WO=$?
 git checkout -q -- . ; git clean -fdq crates >/dev/null 2>&1
 echo "demo with patch: exit $W ; without patch: exit $WO"
 cd /repo
